@@ -357,6 +357,32 @@ func streamFacts(s *src, f *facts) {
 		})
 	}
 	f.b("stPayloadOpaque", opaque, ev)
+	// capacity of the hand-off channels
+	capN := 0
+	found := 0
+	if lb != nil {
+		ast.Inspect(lb, func(n ast.Node) bool {
+			vs, ok := n.(*ast.ValueSpec)
+			if !ok {
+				return true
+			}
+			for i, nm := range vs.Names {
+				if (nm.Name == "requests" || nm.Name == "responses") && i < len(vs.Values) {
+					if c, ok := vs.Values[i].(*ast.CallExpr); ok && s.str(c.Fun) == "make" {
+						found++
+						if k := capOfMake(s, c); k > capN {
+							capN = k
+						}
+					}
+				}
+			}
+			return true
+		})
+	}
+	if found != 2 {
+		capN = 99
+	}
+	f.n("stHandoffChanCap", capN, s.pos(ls))
 }
 
 func tagOf(s *src, st *ast.StructType, field string) string {
